@@ -13,7 +13,7 @@ parameter `papply`.
 namespace Context
 open Py
 
-variable {K V P : Type} [DecidableEq K]
+variable {K V P : Type} [DecidableEq K] [DecidableEq P]
 
 /-- `Logger._options` -/
 structure Opts (K V P : Type) where
@@ -84,9 +84,14 @@ def bindExtra (old kw : Assoc K V) : Assoc K V :=
 def ctxExtra (old kw : Assoc K V) : Assoc K V :=
   Gen.ctxOperands.foldl (fun acc s => merge acc (srcVal old kw s)) []
 
-/-- `[*patchers, patcher]` of `patch` -/
-def patchList (old : List P) (p : P) : List P :=
-  Gen.patchOperands.foldl (fun acc s => acc ++ (match s with | .old => old | .new => [p])) []
+/-- the patcher list `patch` gives the new logger: `[*patchers, patcher]`; with `dedup` the variant
+"`if patcher not in patchers`" (a patcher equal to one already attached is silently dropped) -/
+def patchListWith (dedup : Bool) (old : List P) (p : P) : List P :=
+  if dedup && old.contains p then old
+  else Gen.patchOperands.foldl (fun acc s => acc ++ (match s with | .old => old | .new => [p])) []
+
+/-- what `Logger.patch` does now (`Gen.patchDedup` is regenerated from its source) -/
+def patchList (old : List P) (p : P) : List P := patchListWith Gen.patchDedup old p
 
 /-- call the patchers one after the other on the record -/
 def runPatchers (papply : P → Assoc K V → Assoc K V) (c : Nat) :
